@@ -73,7 +73,8 @@ def _cases(ctx, nl):
     rng = random.Random(ctx.seed * 13 + 4)
     cases = []
     hist = {'lenses': 0, 'mirrors': 0, 'finite_object': 0, 'stop_first': 0, 'stop_last': 0, 'aperture': {}, 'field': {}}
-    corp = [c for c in lensgen.corpus() if c['name'] in ('mangin', 'image-in-glass', 'tir-planoconvex', 'window-before-stop', 'cemented')]
+    corp = [c for c in lensgen.corpus() if c['name'] in ('mangin', 'image-in-glass', 'tir-planoconvex', 'window-before-stop', 'cemented', 'paraboloid',
+                                                        'centre-of-curvature')]
     for li in range(nl + len(corp)):
         spec = dict(corp[li]) if li < len(corp) else lensgen.gen_spec(rng, allow=['plane', 'standard', 'conic', 'even_asphere'], decenter=False,
                                                                                   finite_object=(True if li % 4 == 3 else None))
